@@ -1,7 +1,7 @@
 """C05 — restart reproduces the acknowledged catalogue (replay equals runtime): structural clauses."""
 import re
 from lib import *
-from mir import render, walk, short
+from mir import render, walk, short, canon
 from engine import AnchorLost
 
 TECHNIQUE = 'must-pass-through on success edges in all journalling handlers, sibling agreement binary↔HTTP, replay-arm provenance, code-table agreement (A2, A3, A6, A9, A11)'
@@ -43,6 +43,30 @@ def system_ops(ctx, body):
             continue
         out.append(c)
     return out
+
+
+def journal_entity_provenance(ctx, rep, rid, sites, only=None):
+    """shared with C10"""
+    for d, b, c in sites:
+        fn = ctx.user_fn_of(d)
+        variant, ve = entry_variant(b, c)
+        if variant is None or (only and variant not in only):
+            continue
+        pay = None
+        for x in walk(ve):
+            if x[0] == 'agg' and (x[1].startswith('iggy::') or 'state::models' in x[1]):
+                pay = x
+                break
+        if pay is None:
+            continue
+        for n_, v_ in pay[3]:
+            if not (n_.endswith('_id') or n_ in ('name', 'username')):
+                continue
+            f_ = canon(v_, 0, 2)
+            ok = bool(re.search(r'\b' + re.escape(n_) + r'\b', f_)) and 'get_user_id' not in f_
+            rep.ob(rid, fn, '%s.%s from the request' % (variant, n_), ok, c.where(), f_[:80] if ok else
+                   'the journalled %s names `%s` as its %s, not the %s of the request: replay applies the command to another entity than the one it was performed on' % (variant, f_[:80], n_, n_))
+
 
 
 def journalled_decoders_do_not_validate(ctx, rep, rid):
@@ -125,6 +149,10 @@ def run(ctx, rep):
         rep.ob('R05.k', fn, 'journal under the mutator\'s lock acquisition', same, c.where(),
                '%s → %s, one acquisition' % (system_guard_kind(rm), system_guard_kind(ra)) if same else
                'the system lock taken for %s (%s) is not the one held while journalling (%s): another command can run and be journalled in between, so replay order differs from execution order' % (short(m.name), system_guard_kind(rm), system_guard_kind(ra)))
+
+    # ------------------------------------------------------------ R05.o a rebuilt journal entry addresses what the request addressed
+    rep.rule('R05.o', 'where a handler journals a rebuilt command (secrets blanked or hashed, ids from the path) the entity it names is the one the request named: every *_id / name / username field of the rebuilt payload comes from the like-named field of the request (or path parameter), never from the session', floor=10, analysis='A9 provenance')
+    journal_entity_provenance(ctx, rep, 'R05.o', sites)
 
     # ------------------------------------------------------------ R05.b siblings
     rep.rule('R05.b', 'the binary and the HTTP handler of one journalled command call the same System mutator and journal the same entry variant', floor=19, analysis='A6')
